@@ -16,7 +16,7 @@ CFG = dict(
         # capsule
         "closestPoint_eq", "closestPoint_minimises", "line_eq", "line_neg_iff", "line_zero_iff", "line_lipschitz", "line_exact_le",
         # capsule, attained direction and rounded box as Minkowski sum (Props/C19Capsule.lean)
-        "closestPoint_variational", "line_at_offset", "exists_perp_unit", "line_exact_attained", "line_exact", "roundedBox_neg_iff_minkowski",
+        "closestPoint_variational", "line_at_offset", "exists_perp_unit", "line_exact_attained", "line_exact", "roundedBox_neg_iff_minkowski", "roundedCylinder_core_le", "roundedCylinder_neg_iff_minkowski",
         # rounded cylinder
         "roundedCylinder_eq", "roundedCylinder_lipschitz", "roundedCylinder_neg_iff_sharp", "roundedCylinder_neg_iff",
         # rounded cone (Props/C19Cone.lean): ALL parameters (…_all, nested, same_centre), then the forms under the guard |r1 - r2| < |b - a|
@@ -52,7 +52,7 @@ CFG = dict(
         "RoundedCone: the sign set is given as the union of the open balls B(a+t(b-a), r1+t(r2-r1)), t in [0,1] (roundedCone_neg_iff_all), as the Mathlib convex hull of the two open end balls in EuclideanSpace R (Fin 3) (roundedCone_neg_iff_convexHull_all, via the coordinate bridge toE), and under the guard as the three profile regions (roundedCone_neg_iff_profile); 'interior of the convex hull of the closed balls' is read as that convex hull of open balls",
         "RoundedCone near tangency in float64 (|r1-r2| within rounding of |b-a|): a2 is a difference of nearly equal numbers, which side of the early return is taken is decided by rounding; both regimes agree in the limit; sampled by the stream (rcone.near_tangent), not a theorem (IEEE rounding)",
         "exact distance: both directions (lower bound |f p| <= dist(p, s) for every surface point s, and a surface point at distance exactly |f p|) are proved for sphere, plane, box and capsule (line_exact: every p, outside, inside and on the axis; radius >= 0, a != b)",
-        "rounded box: negative exactly on the Minkowski sum of the closed box with the open ball of the rounding radius (roundedBox_neg_iff_minkowski). Rounded cylinder with rounding > 0: negative exactly where the un-rounded core profile field is below the rounding radius (theorem); that this sub-level set is the Minkowski sum of the core cylinder with a ball is not proved",
+        "rounded box: negative exactly on the Minkowski sum of the closed box with the open ball of the rounding radius (roundedBox_neg_iff_minkowski). Rounded cylinder with rounding rb > 0, 2·radius − rb >= 0 and height >= 0: negative exactly on the Minkowski sum of the core cylinder (radius 2·radius − rb — sic, the source doubles the radius — half height bodyHeight) with the open ball of radius rb (roundedCylinder_neg_iff_minkowski)",
         "subtract: f<0 iff base<0 and 0<sub (strictly outside the subtracted shape): on the subtracted shape's surface f=0, so 'difference of interiors' is read as interior(A) minus closure(B)",
         "capsule with start = end is excluded (guard a ≠ b; the property quantifies over sizes > 0); in float64 the Go code returns NaN there",
         "plane: the Lipschitz and exact-distance theorems need a unit normal (n·n = 1); with a non-unit normal the field is a scaled distance (not claimed)",
@@ -62,7 +62,7 @@ CFG = dict(
     ],
     assumptions=["float64 arithmetic in Go on amd64 is IEEE-754 without FMA contraction"],
     manifest=dict(
-        text="All 7 primitive shapes. Parameter ranges: sphere, box, rounded box, rounded cylinder and the rounded cone's sign / zero-set / Lipschitz theorems hold for ALL parameters (rounded cone incl. nested/tangent balls and a = b: the source's early return of the larger ball, added after this proof showed the bare formula wrong there; its convex-hull form needs radii > 0 and 'attained outside' radii >= 0); the capsule theorems need a non-degenerate segment a ≠ b (Go returns NaN for a = b) and, for the attained direction, radius >= 0; the plane's Lipschitz and exact-distance theorems need a unit normal; box 'attained' needs non-negative sizes. Lean 4 theorems over ℝ about the SDF closures regenerated from math/sdf/*.go and line3D.go on every run: sign and zero set: geometric characterisation for sphere, plane, box, capsule, rounded cone (the closure equals a 2-D profile of cylindrical coordinates — two sphere caps and a slanted side separated by one affine functional, branch tests shown exactly equivalent — and is the minimum over t∈[0,1] of |p − (a+t(b−a))| − (r1+t(r2−r1)); negative exactly in the union of these open balls = convex hull of the two open end balls; VarryingThicknessLine = Union of rounded cones inherits sign and Lipschitz) and the un-rounded cylinder (rounded box / rounded cylinder: negative exactly where the 1-Lipschitz core field is below the rounding radius); 1-Lipschitz bound for all of these (|f p − f q| ≤ |p − q|, proved through Mathlib's Euclidean space; box/rounded box/rounded cylinder via a 1-Lipschitz signed distance to the orthant with an intermediate-value argument; capsule via the minimising property of the clamped projection; rounded cone as a minimum of 1-Lipschitz ball gaps), exact distance (sphere, plane, box, capsule: both directions — |f p| ≤ |p − s| for every surface point s and some surface point at distance exactly |f p|, for every p incl. interior and on-axis points; rounded cone: lower bound, and attained outside the shape); rounded box = Minkowski sum of the box with the open ball of the rounding radius, union/intersection/subtraction sign laws and Lipschitz closure for any number of operands, translation. Regenerated definitions run at Float and compared bit-for-bit with the Go closures; reference-distance oracles on the Go outputs.",
-        note="Trusted: Lean kernel; propext/Classical.choice/Quot.sound; translator and vector table; hand models of Union/Intersect and of the VarryingThicknessLine loop (both corresponded bit for bit); harness; reference SDFs in the driver. Not proved: exact distance attained for interior points of the rounded cone (not claimed by the property); Minkowski reading of the rounded cylinder; IEEE rounding.",
+        text="All 7 primitive shapes. Parameter ranges: sphere, box, rounded box, rounded cylinder and the rounded cone's sign / zero-set / Lipschitz theorems hold for ALL parameters (rounded cone incl. nested/tangent balls and a = b: the source's early return of the larger ball, added after this proof showed the bare formula wrong there; its convex-hull form needs radii > 0 and 'attained outside' radii >= 0); the capsule theorems need a non-degenerate segment a ≠ b (Go returns NaN for a = b) and, for the attained direction, radius >= 0; the plane's Lipschitz and exact-distance theorems need a unit normal; box 'attained' needs non-negative sizes. Lean 4 theorems over ℝ about the SDF closures regenerated from math/sdf/*.go and line3D.go on every run: sign and zero set: geometric characterisation for sphere, plane, box, capsule, rounded cone (the closure equals a 2-D profile of cylindrical coordinates — two sphere caps and a slanted side separated by one affine functional, branch tests shown exactly equivalent — and is the minimum over t∈[0,1] of |p − (a+t(b−a))| − (r1+t(r2−r1)); negative exactly in the union of these open balls = convex hull of the two open end balls; VarryingThicknessLine = Union of rounded cones inherits sign and Lipschitz) and the un-rounded cylinder (rounded box / rounded cylinder: negative exactly where the 1-Lipschitz core field is below the rounding radius); 1-Lipschitz bound for all of these (|f p − f q| ≤ |p − q|, proved through Mathlib's Euclidean space; box/rounded box/rounded cylinder via a 1-Lipschitz signed distance to the orthant with an intermediate-value argument; capsule via the minimising property of the clamped projection; rounded cone as a minimum of 1-Lipschitz ball gaps), exact distance (sphere, plane, box, capsule: both directions — |f p| ≤ |p − s| for every surface point s and some surface point at distance exactly |f p|, for every p incl. interior and on-axis points; rounded cone: lower bound, and attained outside the shape); rounded box / rounded cylinder = Minkowski sum of the box / core cylinder with the open ball of the rounding radius, union/intersection/subtraction sign laws and Lipschitz closure for any number of operands, translation. Regenerated definitions run at Float and compared bit-for-bit with the Go closures; reference-distance oracles on the Go outputs.",
+        note="Trusted: Lean kernel; propext/Classical.choice/Quot.sound; translator and vector table; hand models of Union/Intersect and of the VarryingThicknessLine loop (both corresponded bit for bit); harness; reference SDFs in the driver. Not proved: exact distance attained for interior points of the rounded cone (not claimed by the property); IEEE rounding.",
         technique="Lean 4 proof over a model regenerated from source (translator) + Float bit-exact correspondence"),
 )
